@@ -361,6 +361,26 @@ def R8_binders(ctx, rid, core):
         key = S.norm(n["args"][0], S.Env())
         okk = n["name"] == "shift_remove" and in_loop and not conds and S.contains_call(key, "get_name")
         ctx.inst(rid, "binder=Expr::Lambda#all-parameters", okk, "%s(%s) in a loop over the parameters with no condition on the parameter kind: %s" % (n["name"], S.show(key), okk), H.loc(n))
+    # a captured value is inlined whatever its name: the look-up in the scope is the only condition
+    for f_ in inl_fns:
+        for n, e, g in scope.sites(f_["body"], lambda n: H.kind(n) == "Call" and n.get("def") == A2S + "serializable_value_to_source", S.Env()):
+            if innermost_ast_arm(g) != "Expr::Identifier":
+                continue
+            extra = []
+            for gg in g:
+                if gg[0] == "arm" and gg[1].get("guard") is not None and any(H.last(v_) == "Some" for v_ in H.pat_variants(gg[1]["pat"])):
+                    extra.append("arm guard at %s" % H.loc(gg[1]["guard"]))
+                if gg[0] == "if" and gg[2] is True:
+                    cs_ = []
+                    st_ = [gg[1]]
+                    while st_:
+                        c_ = H.strip(st_.pop())
+                        if H.kind(c_) == "Binary" and c_.get("op") == "And":
+                            st_ += [c_["l"], c_["r"]]
+                        else:
+                            cs_.append(c_)
+                    extra += ["condition at %s" % H.loc(c_) for c_ in cs_ if H.kind(c_) != "LetExpr" and any(H.kind(y) == "Lit" and y.get("lk") == "str" for y in H.walk(c_))]
+            ctx.inst(rid, "substitution#unconditional@%s" % H.last(f_.get("name") or "") if False else "substitution#unconditional", not extra, "conditions on the name besides the scope look-up: %s (a captured value left symbolic is an unbound name - or somebody else's value - where the function is reloaded)" % (extra or "none"), H.loc(n))
     # substitution positions
     subst = set()
     for n, e, g in scope.sites(inl["body"], lambda n: H.kind(n) == "Call" and n.get("def") == A2S + "serializable_value_to_source", S.Env()):
